@@ -161,6 +161,8 @@ def same(f, io, mo):
     if io == mo:
         return True
     op = f[0]
+    if op == "R":                        # a second token (pt=..) is an observation of the implementation only
+        return bool(io) and bool(mo) and io[0] == mo[0]
     if op in ("PK", "PS", "PE") and mo and mo[0] == "any":
         return io[0] in ("ok", "err")
     if op == "PH" and mo and mo[-1] == "any":
@@ -169,4 +171,16 @@ def same(f, io, mo):
     return False
 
 
-FINDING_MATCHERS = {}
+def _reneg_plaintext_finished(f, io):
+    """finding c15-reneg-client-plaintext-finished: a standard-TLS client with Config.Renegotiation enabled completes on
+    a Finished sent in the clear where the ChangeCipherSpec is due (readRecord lets a handshake record through while
+    ChangeCipherSpec is wanted; readFinished only looks at c.in.err).  Exactly: R case, victim ct, rn=1|2, honest first
+    flight, second flight starting with FIN (no ChangeCipherSpec before it), implementation ok."""
+    if f[0] != "R" or f[2] != "ct" or not io or io[0] != "ok":
+        return False
+    cfg = _kv(f[4])
+    fl = f[6].split("/")
+    return cfg.get("rn") in ("1", "2") and len(fl) == 2 and fl[1].split("|")[0] == "FIN"
+
+
+FINDING_MATCHERS = {"c15-reneg-client-plaintext-finished": _reneg_plaintext_finished}
